@@ -14,7 +14,7 @@ Inputs(ops, n, k) == IF n = 0 THEN <<>>
                           ELSE (IF k = 1 THEN prev \o Inputs(ops, n - 1, 2) ELSE prev)
 AsSet(x) == {x[i] : i \in DOMAIN x}
 Matches(obs, inputs) == AsSet(obs.classes) = ClassTotals(inputs) /\ AsSet(obs.texts) = TextBag(inputs) /\ obs.exact
-Clauses == {"Returns", "ConservesAfterEveryStep", "FitConserves", "FinalTotalsAsSpecified", "LenConsistent", "ConservesAtAnyScale"}
+Clauses == {"Returns", "ConservesAfterEveryStep", "FitConserves", "FinalTotalsAsSpecified", "LenConsistent", "ConservesAtAnyScale", "BundledTotalsConserved"}
 Holds(c, r) ==
   CASE c = "Returns" -> r.obs.st = "ok"
     [] c = "ConservesAfterEveryStep" -> \A n \in DOMAIN r.obs.steps :
@@ -25,6 +25,8 @@ Holds(c, r) ==
     \* the same operations with every amount divided by 3 and by 7000 (multiplied back by the recorder)
     [] c = "ConservesAtAnyScale" -> (r.obs.st = "ok" /\ r.obs.steps # <<>>) =>
             (AsSet(r.obs.final3.classes) = AsSet(r.totals1) /\ r.obs.final3.exact /\ AsSet(r.obs.final7000.classes) = AsSet(r.totals1) /\ r.obs.final7000.exact)
+    \* the bundled converter (fractions on): a number or range added in two halves and fitted is the same physical amount
+    [] c = "BundledTotalsConserved" -> ("kind" \in DOMAIN r /\ r.kind = "bundledfit") => r.preserved
     [] c = "LenConsistent" -> \A n \in DOMAIN r.obs.steps : r.obs.steps[n].len1 = r.obs.steps[n].vec1
 Failed(r) == {c \in Clauses : ~Holds(c, r)}
 TInit == l = 1
